@@ -1,3 +1,4 @@
+import os
 import vf
 
 RULE = ("Gen_Orient + BigInt.tla: nearly collinear triples with generic 53-bit mantissas and coordinates of different magnitude (a = alpha 2^-26 near the origin, b = 30-bit integers, c = the midpoint of a b rounded to double precision and moved by -2..2 ulps per coordinate): every coordinate is representable but the differences are not; the exact sign of the 120-bit determinant is computed in TLA+ with base-2^13 limb arithmetic (self-tested against TLC integers, OrientLaws on every state). Gen_Cassini: a = (0,0), b = (F(n+1), F(n)), c = (F(m+1), F(m)) for n = 24..44, m = n-6..n-1 (Fibonacci numbers): Cross = (-1)^(m+1) F(n-m) by d'Ocagne's identity (checked by TLC where 32-bit products suffice) - triples whose determinant is a small integer although its two products are ~2^60, replayed at 5 exact scales, the symmetries of the square and a translation into orient2d, point-in-ring / polygon / triangle, point-on-segment, winding_order and segment intersects. Gen_Kernel: TLC enumerates exactly collinear base triples (a, b, c0) of the 5x5 lattice with b and c moved by whole "
@@ -19,11 +20,14 @@ def check(tier, seed, t0):
             # nearly collinear triples with 27 - 31 significant bits whose exact sign follows from Cassini / d'Ocagne
             dict(name="cassini", module="Gen_Cassini", constants=dict(NLo=24, NHi=44), workers=2),
             # generic 53-bit mantissas, coordinates of different magnitude: exact sign from the limb arithmetic of BigInt.tla
-            dict(name="orient", module="Gen_Orient", constants=dict(SeedLo=1 + 200 * (seed % 5), SeedHi=(200 if tier == "quick" else 1000) + 200 * (seed % 5)),
-                 invariants=["OrientLaws"])]
+            dict(name="orient", module="Gen_Orient", constants=dict(SeedLo=1 + 400 * (seed % 5), SeedHi=(4000 if tier == "quick" else 6400) + 400 * (seed % 5)),
+                 invariants=["OrientLaws"]),
+            # pinned adversarial triples (plain determinant confidently wrong); exact sign recomputed by TLC from the limbs
+            dict(name="pinned", module="Gen_OrientPinned", constants={}, invariants=["PinnedLaws"], workers=4,
+                 env={"PINNED": os.path.join(vf.VERIF, "findings", "pinned_orient.ndjson")})]
     vf.simple_check("C03", tier, seed, t0, runs, RULE, ASSUME,
-                    nontrivial=lambda c: c["op"] in ("kernel", "kernel_fib", "kernel_big") or c["rel"]["kind"] != "none",
-                    require_counters=["kernel_fib_cases", "kernel_big_cases", "kernel_big_orient_1", "kernel_big_orient_-1"])
+                    nontrivial=lambda c: c["op"] in ("kernel", "kernel_fib", "kernel_big", "kernel_pinned") or c["rel"]["kind"] != "none",
+                    require_counters=["kernel_fib_cases", "kernel_big_cases", "kernel_big_orient_1", "kernel_big_orient_-1", "kernel_pinned_cases"])
 
 
 def replay(path, seed, t0):
